@@ -62,15 +62,29 @@ def to_sympy(v, env=None):
 
 def equal(a, b):
     """Decide a == b as rational functions (a, b sympy expressions)."""
-    d = sp.simplify(sp.together(a - b))
+    d = a - b
     if d == 0:
         return True
     try:
-        n, _ = sp.fraction(sp.cancel(sp.together(a - b)))
+        n, _ = sp.fraction(sp.together(d))
+        if sp.expand(n) == 0:
+            return True
+    except Exception:
+        pass
+    try:
+        if sp.simplify(sp.together(d)) == 0:
+            return True
+        n, _ = sp.fraction(sp.cancel(sp.together(d)))
         return sp.expand(n) == 0
     except Exception:
         return False
 
 
 def show(e):
-    return str(sp.simplify(e))
+    """Display form; simplification is only attempted on small expressions (it dominated run time otherwise)."""
+    try:
+        if sp.count_ops(e) <= 60:
+            return str(sp.simplify(e))
+    except Exception:
+        pass
+    return str(e)
